@@ -41,7 +41,7 @@ type c16sub struct {
 func (o *c16obj) acked() int64 { return atomic.LoadInt64(&o.ackStamp) }
 
 func c16(c *wk.Ctx) {
-	c.Note("rule", "each plan hosts a fresh Probe service and runs a PRNG sequence, then 2-8 concurrent goroutines, of: Service.Add (new object), call work(token) through a proxy, SubscribeTick, Service.Remove, remote terminate() through the object's proxy, removal of an already removed id, remote terminate of a removed object, calls after removal. Oracle: ids returned by Add are unique among live objects; for every object whose removal was acknowledged (Remove returned nil / terminate replied): its OnTerminate hook ran exactly once at quiescence (0 for live objects), every call started after the acknowledgement returns an error and never reaches the object (per-token execution counter), its subscribers' channels get closed (quiescence detector); every object still live answers correctly at the end. Stream collide: the global math/rand source the service draws identifiers from is re-seeded with one seed before several Add calls, so that each draws an identifier already held: every Add returns, identifiers are unique among the live objects, every object answers and runs its call once. Stream flood: an object whose method is parked is flooded with 8-40 calls from 3-6 connections (mailbox full, routing goroutines waiting) and is terminated remotely / removed locally in the middle, then released: every call and the termination return, no call runs twice, hook once, later calls fail, the sibling answers on every connection. Stream crowd: one object (one case in three: the service's original object, id 1) with 3-24 registrations spread over 1-5 raw connections x 3 signals/properties (+ the generated proxies of a session) is removed or terminates itself: (some registrations are cancelled again, one handler id may be tried on two signals) every (connection, signal) with an acknowledged registration still in place receives the termination error, every proxy channel closes, the hook ran once, the sibling answers. Distinct non-trivial = distinct plans with at least one acknowledged removal followed by a call to the removed object.")
+	c.Note("rule", "each plan hosts a fresh Probe service and runs a PRNG sequence, then 2-8 concurrent goroutines, of: Service.Add (new object), call work(token) through a proxy, SubscribeTick, Service.Remove, remote terminate() through the object's proxy, removal of an already removed id, remote terminate of a removed object, calls after removal. Oracle: ids returned by Add are unique among live objects; for every object whose removal was acknowledged (Remove returned nil / terminate replied): its OnTerminate hook ran exactly once at quiescence (0 for live objects), every call started after the acknowledgement returns an error and never reaches the object (per-token execution counter), its subscribers' channels get closed (quiescence detector); every object still live answers correctly at the end. Stream readd: the same Actor value is added, subscribed to, called, terminated (remotely or by Remove) and added again, 2-4 lives: in each life the object is callable, the hook count grows by one per acknowledged termination, the subscriber is told, later calls fail. Stream collide: the global math/rand source the service draws identifiers from is re-seeded with one seed before several Add calls, so that each draws an identifier already held: every Add returns, identifiers are unique among the live objects, every object answers and runs its call once. Stream flood: an object whose method is parked is flooded with 8-40 calls from 3-6 connections (mailbox full, routing goroutines waiting) and is terminated remotely / removed locally in the middle, then released: every call and the termination return, no call runs twice, hook once, later calls fail, the sibling answers on every connection. Stream crowd: one object (one case in three: the service's original object, id 1) with 3-24 registrations spread over 1-5 raw connections x 3 signals/properties (+ the generated proxies of a session) is removed or terminates itself: (some registrations are cancelled again, one handler id may be tried on two signals) every (connection, signal) with an acknowledged registration still in place receives the termination error, every proxy channel closes, the hook ran once, the sibling answers. Distinct non-trivial = distinct plans with at least one acknowledged removal followed by a call to the removed object.")
 	var w *world
 	defer func() {
 		if w != nil {
@@ -70,6 +70,7 @@ func c16(c *wk.Ctx) {
 		n++
 		c16one(c, i, rng, w, sess, fmt.Sprintf("P%d", n))
 	})
+	c.Cases("readd", c.Pick(40, 2000), func(i int, rng *rand.Rand) { c16readd(c, i, rng) })
 	c.Cases("collide", c.Pick(40, 2000), func(i int, rng *rand.Rand) { c16collide(c, i, rng) })
 	c.Cases("flood", c.Pick(40, 4000), func(i int, rng *rand.Rand) { c16flood(c, i, rng) })
 	c.Cases("crowd", c.Pick(150, 20000), func(i int, rng *rand.Rand) {
@@ -347,6 +348,103 @@ func c16crowd(c *wk.Ctx, i int, rng *rand.Rand, w *world, sess bus.Session, name
 	if c.WantSample() && i%10 == 0 {
 		c.Sample(map[string]interface{}{"stream": "crowd", "plan": i, "connections": nConn, "registrations": len(want), "proxy_subscriptions": nProxy, "removal": how})
 	}
+}
+
+// c16readd: one and the same Actor value lives several lives in a service: added, subscribed to, called,
+// asked to terminate itself (or removed), then added again. In every life: a fresh identifier, callable,
+// after the acknowledged termination the hook count has grown by exactly one, the subscriber is told,
+// later calls to the old identifier fail.
+func c16readd(c *wk.Ctx, i int, rng *rand.Rand) {
+	w, err := newWorld("unix", nil)
+	if err != nil {
+		c.Inconclusive("readd", i, "world: "+err.Error())
+		return
+	}
+	defer w.close()
+	ps, err := w.addProbe("R", 1, nil)
+	if err != nil {
+		c.Inconclusive("readd", i, "addProbe: "+err.Error())
+		return
+	}
+	sess, err := w.session()
+	if err != nil {
+		c.Inconclusive("readd", i, "session: "+err.Error())
+		return
+	}
+	defer sess.Terminate()
+	var progress int64
+	im := svc.NewImpl("R#again")
+	actor := probe.ProbeObject(im) // the SAME actor value is added in every life
+	lives := 2 + rng.Intn(3)
+	seen := map[uint32]bool{}
+	detail := map[string]interface{}{"lives": lives}
+	for life := 1; life <= lives; life++ {
+		detail["life"] = life
+		id, err := ps.service.Add(actor)
+		if err != nil {
+			c.Viol("readd", i, "add=error/re-added", fmt.Sprintf("adding the actor again (life %d) failed: %v", life, err), detail)
+			return
+		}
+		seen[id] = true
+		var px probe.ProbeProxy
+		p, err := sess.Proxy("R", id)
+		for try := 0; err != nil && try < 2000; try++ {
+			time.Sleep(time.Millisecond)
+			p, err = sess.Proxy("R", id)
+		}
+		if err != nil {
+			c.Viol("readd", i, "add=not-callable/re-added", fmt.Sprintf("life %d: object %d cannot be reached: %v", life, id, err), detail)
+			return
+		}
+		px = probe.MakeProbe(sess, p)
+		token := uint64(life)
+		if out, err := px.Work(token, "life"); err != nil || out != svc.F(token, "life") {
+			c.Viol("readd", i, "add=not-callable/re-added", fmt.Sprintf("life %d: object %d does not answer: %q %v", life, id, out, err), detail)
+			return
+		}
+		_, ch, err := px.SubscribeTick()
+		if err != nil {
+			c.Viol("readd", i, "subscribe=error/re-added", fmt.Sprintf("life %d: %v", life, err), detail)
+			return
+		}
+		closed := make(chan struct{})
+		go func() {
+			for range ch {
+			}
+			close(closed)
+		}()
+		how := "remote terminate"
+		if rng.Intn(3) == 0 {
+			how = "Service.Remove"
+			err = ps.service.Remove(id)
+		} else {
+			err = px.Terminate(id)
+		}
+		detail["removal"] = how
+		if err != nil {
+			c.Viol("readd", i, "remove=error/re-added", fmt.Sprintf("life %d: %s of a live object failed: %v", life, how, err), detail)
+			return
+		}
+		if v, dump := stuck.Wait(closed, &progress, 2*time.Minute); v == stuck.Stuck {
+			detail["dump"] = clipDump(dump)
+			c.Viol("readd", i, "removed=subscriber-not-told/re-added", fmt.Sprintf("life %d: after the acknowledged %s of object %d its subscriber was never told", life, how, id), detail)
+			return
+		} else if v == stuck.Watchdog {
+			c.Inconclusive("readd", i, "watchdog")
+			return
+		}
+		if n := im.Terminated(); n != life {
+			c.Viol("readd", i, fmt.Sprintf("removed=terminated-%d-times-after-%d-lives", n, life), fmt.Sprintf("after %d acknowledged terminations of the actor its hook has run %d times", life, n), detail)
+			return
+		}
+		late := uint64(100 + life)
+		if out, err := px.Work(late, "late"); err == nil || im.ExecCount(late) != 0 {
+			c.Viol("readd", i, "removed=call-succeeded/re-added", fmt.Sprintf("life %d: a call after the acknowledged %s of object %d returned %q / reached the object", life, how, id, out), detail)
+			return
+		}
+	}
+	c.Count("actor_lives", int64(lives))
+	c.Nontrivial(wk.Hash64("C16readd", i))
 }
 
 // c16collide: identifier collisions are forced by re-seeding the global math/rand source the service
